@@ -653,6 +653,16 @@ def gen_case(seed, profile='edit'):
             qcount[0] += 1
             pool.append({'lhs': ['v', x_], 'rhs': q(qcount[0], rng.choice(['2', '-1', '0.5']))})
             clamp = (x_, len(pool) - 1)
+    retag = None
+    if profile == 'value' and rng.random() < 0.4:
+        # a computed variable that is a plain number for a while (x = number), is looked at (role queries build the graph), and
+        # gets its real definition back: its value follows the CURRENT definition
+        algs_ = [i for i in sorted(kinds) if kinds[i] == 'alg']
+        if algs_:
+            x2 = rng.choice(algs_)
+            qcount[0] += 1
+            pool.append({'lhs': ['v', x2], 'rhs': q(qcount[0], rng.choice(['3', '-0.5', '4']))})
+            retag = (x2, len(pool) - 1)
     npool = len(pool)
     ops = []
     nvars = nbase
@@ -742,6 +752,11 @@ def gen_case(seed, profile='edit'):
     if clamp_ops:
         at = rng.randrange(ncore, len(ops) + 1)
         ops[at:at] = clamp_ops
+    if retag is not None:
+        x2, ce2 = retag
+        at = rng.randrange(ncore, len(ops) + 1)
+        ops[at:at] = [['rmeq', core_eq[x2]], ['addeq', ce2, True], ['q_graph'], ['q_derived'], ['q_value', x2], ['rmeq', ce2],
+                      ['addeq', core_eq[x2], True], ['q_value', x2], ['q_value', rng.randrange(nbase)], ['q_const', x2]]
     if profile == 'annot' and rng.random() < 0.35:
         # an id that moves away from a variable whose annotations were looked at, and a NEW id for that variable: the
         # annotations of the old id stay with its new carrier, also when the first variable is removed
